@@ -692,3 +692,20 @@ M("C13-global-test-moved-after-merge", "C13", "src/interrogatedb/interrogateData
   "      if (!this_type.is_global() && other_type.is_global()) {\n        // If the type is about to become global, we need to add it to our\n        // global_types list.\n        _global_types.push_back(this_type_index);\n      }\n\n      InterrogateType merge_type = other_type;\n      merge_type.remap_indices(remap);\n      this_type.merge_with(merge_type);",
   "      InterrogateType merge_type = other_type;\n      merge_type.remap_indices(remap);\n      this_type.merge_with(merge_type);\n\n      if (!this_type.is_global() && other_type.is_global()) {\n        // If the type is about to become global, we need to add it to our\n        // global_types list.\n        _global_types.push_back(this_type_index);\n      }",
   expect="R13.3|merge_from|shared-type|global-test-before-merge_with")
+
+# ---------------------------------------------------------------- C06 R06.4
+M("C06-unsigned-builds-signed", "C06", "src/cppparser/cppBison.yxx",
+  "        | KW_UNSIGNED simple_int_type\n{\n  $$ = $2;\n  $$->_flags |= CPPSimpleType::F_unsigned;", "        | KW_UNSIGNED simple_int_type\n{\n  $$ = $2;\n  $$->_flags |= CPPSimpleType::F_signed;",
+  expect="R06.4|grammar|simple_int_type|KW_UNSIGNED_simple_int_type")
+M("C06-float-prints-double", "C06", "src/cppparser/cppSimpleType.cxx",
+  "  case T_float:\n    out << \"float\";", "  case T_float:\n    out << \"double\";",
+  expect="R06.4|printer|T_float")
+M("C06-rvalue-flipped", "C06", "src/cppparser/cppReferenceType.cxx",
+  "  std::string prefix((_value_category == VC_rvalue) ? \"&&\" : \"&\");", "  std::string prefix((_value_category == VC_rvalue) ? \"&\" : \"&&\");",
+  expect="R06.4|printer|reference")
+M("C06-short-flag-prints-long", "C06", "src/cppparser/cppSimpleType.cxx",
+  "  } else if (_flags & F_short) {\n    out << \"short \";", "  } else if (_flags & F_short) {\n    out << \"long \";",
+  expect="R06.4|printer|F_short")
+M("C06-benign-reorder-cases", "C06", "src/cppparser/cppSimpleType.cxx",
+  "  case T_float:\n    out << \"float\";\n    break;\n\n  case T_double:\n    out << \"double\";\n    break;", "  case T_double:\n    out << \"double\";\n    break;\n\n  case T_float:\n    out << \"float\";\n    break;",
+  benign=True)
